@@ -30,16 +30,6 @@ theorem mem_upto0_zero : ∀ {l : List Nat}, 0 ∈ l → 0 ∈ Spec.upto0 l
     · simp [Spec.upto0, hx]
     · simp [Spec.upto0, hx, mem_upto0_zero (mem_tail_of_ne h hx)]
 
-theorem mem_of_mem_upto0 : ∀ {l : List Nat} {y : Nat}, y ∈ Spec.upto0 l → y ∈ l
-  | [], y, h => by simp [Spec.upto0] at h
-  | x :: l, y, h => by
-    by_cases hx : x = 0
-    · simp [Spec.upto0, hx] at h; simp [h, hx]
-    · simp only [Spec.upto0, hx, if_false, List.mem_cons] at h
-      rcases h with h | h
-      · simp [h]
-      · exact List.mem_cons_of_mem _ (mem_of_mem_upto0 h)
-
 theorem length_upto0_le : ∀ l : List Nat, (Spec.upto0 l).length ≤ l.length
   | [] => by simp [Spec.upto0]
   | x :: l => by
